@@ -246,14 +246,16 @@ def run_write(write, path, crash_at, pieces, seed=0):
         try:
             os.close(r)
             signal.alarm(120)  # a hung child kills itself; the parent then reports a harness error
+            import gc
+
+            gc.freeze()  # what the worker already holds is not garbage of this write (and scanning it costs 70 ms)
+            sys.stdout = sys.stderr = io.StringIO()  # progress tables of the code under test die with the child
             counter = _Counter(crash_at, pieces)
             torch.manual_seed(seed)
             _install(counter, os.path.dirname(path))
             try:
                 write(path)
-                import gc
-
-                gc.collect()
+                gc.collect()  # a file object left to the collector is closed now, as it would be in a living process
                 _send(w, {"trace": counter.trace})
                 code = 0
             except BaseException as e:  # noqa
@@ -459,6 +461,8 @@ class Site:
         self.kind = case["site"]
         sizes = case["sizes"]
         two = case.get("two_d", [False] * len(sizes))
+        if self.kind.endswith("_run"):  # the algorithms themselves are only defined for vectors
+            two = [False] * len(sizes)
         self.two = two
         dic = {}
         a0 = case["scales"][0]
@@ -638,19 +642,22 @@ def _body(c, tmp):
 # =========================================================================== selftest: the machinery on toy writers
 def _toy(protocol):
     def write_of(i):
-        text = json.dumps({"v": i, "data": list(range(3000 + i))}, indent=1)
+        lines = json.dumps({"v": i, "data": list(range(1500 + i))}, indent=1).splitlines(True)
 
         def w(path):
             if protocol == "inplace":
                 with open(path, "w") as f:
-                    f.write(text)
+                    for ln in lines:
+                        f.write(ln)
             elif protocol == "safe":
                 with open(path + ".new", "w") as f:
-                    f.write(text)
+                    for ln in lines:
+                        f.write(ln)
                 os.replace(path + ".new", path)
-            elif protocol == "noflush":
+            elif protocol == "noflush":  # the tail of the text is still in python's buffer when the file gets its name
                 f = open(path + ".new", "w")
-                f.write(text)
+                for ln in lines:
+                    f.write(ln)
                 os.replace(path + ".new", path)
                 f.close()
 
@@ -662,11 +669,11 @@ def _toy(protocol):
 def selftest():
     tmp = tempfile.mkdtemp(prefix="vt-c18-self-")
     try:
-        for protocol, expect in (("safe", set()), ("inplace", {"name_truncated"}), ("noflush", {"name_truncated"})):
+        for protocol, expect in (("safe", set()), ("inplace", {"name_truncated", "lost"}), ("noflush", {"name_truncated", "lost"})):
             wo = _toy(protocol)
             sub = os.path.join(tmp, protocol)
             os.makedirs(sub)
-            versions, info = reference_texts(wo, 4, sub, 1, 0)
+            versions, info = reference_texts(wo, 3, sub, 1, 0)
             if versions is None:
                 raise HarnessError("C18 selftest: toy writer raised %r" % (info,))
             # the counting file object must produce exactly what the real one does
@@ -678,7 +685,7 @@ def selftest():
                     raise HarnessError("C18 selftest: counted file object and real file object disagree")
             os.remove(real)
             res = Res(tags={"site": "toy"})
-            evals, keys, labels = explore(wo, versions, 3, 2, [1], sub, res, res.tags, "toy")
+            evals, keys, labels = explore(wo, versions, 2, 2, [1], sub, res, res.tags, "toy")
             kinds = {f.kind for f in res.fails}
             if kinds != expect:
                 raise HarnessError("C18 selftest: toy protocol %r gave %r, expected %r" % (protocol, sorted(kinds), sorted(expect)))
